@@ -8,3 +8,16 @@ package types
 // writes to memory reachable by its caller.
 //@ func ConvertGoType [C13] trusted
 //@   modifies nothing
+
+// ---- C07: truthiness ------------------------------------------------------------------------------------
+// The table of the property statement: after trimming and lower-casing, exactly these words are false.
+//@ spec $falsy(s string) bool = len(s) == 0 || s == "null" || s == "0" || s == "false" || s == "no" || s == "off" || s == "fail" || s == "failed" || s == "disabled"
+//@ spec $isTrueStr(s string, exit int) bool = ite(exit > 0, false, ite(exit < 0, true, !$falsy($lower($trim(s)))))
+
+//@ func IsTrueString [C07 C19]
+//@   modifies nothing
+//@   ensures result == $isTrueStr(stdout, exitNum)
+
+//@ func IsTrue [C07 C19]
+//@   modifies nothing
+//@   ensures imp(exitNum > 0, !result) && imp(exitNum < 0, result)
